@@ -275,8 +275,71 @@ fn consts() -> String {
     o.join(",")
 }
 
+/// the `Default` values of the header types and a few conversions no other operation goes through: each default is
+/// a value like any other (encodes to its announced length, decodes back to itself)
+fn defaults() -> String {
+    let mut bad: Vec<&str> = Vec::new();
+    let a = IpAuthHeader::default();
+    if a.to_bytes().len() != a.header_len() || a.header_len() != 12 || IpAuthHeader::from_slice(&a.to_bytes()).map(|x| x.0 != a).unwrap_or(true) {
+        bad.push("IpAuthHeader::default");
+    }
+    let r = Ipv6RawExtHeader::default();
+    if r.to_bytes().len() != r.header_len() || r.header_len() != 8 || Ipv6RawExtHeader::from_slice(&r.to_bytes()).map(|x| x.0 != r).unwrap_or(true) {
+        bad.push("Ipv6RawExtHeader::default");
+    }
+    if Ipv6ExtensionSliceIter::default().count() != 0 || Ipv6ExtensionsSlice::default().into_iter().count() != 0 {
+        bad.push("Ipv6ExtensionSliceIter::default");
+    }
+    if !Ipv6Extensions::default().is_empty() || Ipv6Extensions::default().header_len() != 0 || !Ipv4Extensions::default().is_empty() {
+        bad.push("extensions default");
+    }
+    if u16::from(LinuxNonstandardEtherType::default()) != 0x0001 {
+        bad.push("LinuxNonstandardEtherType::default");
+    }
+    let t = TcpHeader::default();
+    if t.to_bytes().len() != 20 || TcpHeader::from_slice(&t.to_bytes()).map(|x| x.0 != t).unwrap_or(true) {
+        bad.push("TcpHeader::default");
+    }
+    let h4 = Ipv4Header::default();
+    if h4.header_len() != 20 || h4.to_bytes().len() != 20 {
+        bad.push("Ipv4Header::default");
+    }
+    let h6 = Ipv6Header::default();
+    if h6.to_bytes().len() != 40 || Ipv6Header::from_slice(&h6.to_bytes()).map(|x| x.0 != h6).unwrap_or(true) {
+        bad.push("Ipv6Header::default");
+    }
+    let e = Ethernet2Header::default();
+    if Ethernet2Header::from_bytes(e.to_bytes()) != e {
+        bad.push("Ethernet2Header::default");
+    }
+    // ARP: the Ethernet/IPv4 convenience packet and the general one
+    let ae = ArpEthIpv4Packet { operation: ArpOperation::REQUEST, sender_mac: [1, 2, 3, 4, 5, 6], sender_ipv4: [10, 0, 0, 1], target_mac: [7, 8, 9, 10, 11, 12], target_ipv4: [10, 0, 0, 2] };
+    let ap = ArpPacket::from(ae.clone());
+    if ap != ae.to_arp_packet() || ap.to_bytes()[..] != ae.to_bytes()[..] || ArpEthIpv4Packet::try_from(ap.clone()).ok() != Some(ae.clone()) {
+        bad.push("ArpEthIpv4Packet conversions");
+    }
+    // IGMP group address
+    let g = GroupAddress::new([224, 0, 0, 1]);
+    if g.is_zero() || !GroupAddress::new([0; 4]).is_zero() || <[u8; 4]>::from(g) != [224, 0, 0, 1] || GroupAddress::from([224, 0, 0, 1]) != g
+        || GroupAddress::from(std::net::Ipv4Addr::new(224, 0, 0, 1)) != g || std::net::Ipv4Addr::from(g) != std::net::Ipv4Addr::new(224, 0, 0, 1)
+    {
+        bad.push("GroupAddress conversions");
+    }
+    // TCP option elements through the trait door
+    let els = [TcpOptionElement::MaximumSegmentSize(1460), TcpOptionElement::Noop];
+    if TcpOptions::try_from(&els[..]).ok() != TcpOptions::try_from_elements(&els).ok() {
+        bad.push("TcpOptions::try_from(elements)");
+    }
+    if bad.is_empty() {
+        "ok".to_string()
+    } else {
+        format!("differ({})", bad.join(";"))
+    }
+}
+
 pub fn run(op: &str, a: &[&str]) -> Option<String> {
     Some(match (op, a) {
+        ("impl.bf.defaults", []) => defaults(),
         ("impl.bf.fmt_tables", []) => fmt_tables(),
         ("impl.bf.consts", []) => consts(),
         ("bf.try_new", [t, v]) => try_new(t, v)?,
